@@ -217,7 +217,8 @@ pub fn mutants(p: &Parent) -> Vec<Mutant> {
         push("jump-to-data-label", format!("{} retargeted to data label", j.mn), replace(*ji, &format!("{} {}", mn, if ji % 3 == 0 { "w_0" } else { "d_0" })), *ji);
     }
     // inserted invalid statements
-    let some_label = code_labels.iter().map(|(_, n)| n.as_str()).find(|n| *n != "start").unwrap_or("start").to_string();
+    // a code label that is not also the name of a procedure (the two name spaces are separate)
+    let some_label = code_labels.iter().map(|(_, n)| n.as_str()).find(|n| *n != "start" && !procs.iter().any(|(_, p)| p == n)).unwrap_or("start").to_string();
     let mut inserted: Vec<(&'static str, String)> = vec![
         ("code-label-as-data-operand", format!("mov al, byte {}", some_label)),
         ("code-label-as-data-operand", format!("MOV AX, WORD {}", some_label)),
@@ -335,6 +336,17 @@ pub fn mutants(p: &Parent) -> Vec<Mutant> {
                 push(if what.starts_with("width") { "mixed-operand-sizes" } else { "constant-out-of-range" }, format!("'{}' -> '{}' ({})", l.text, t, what), replace(i, &t), i);
             }
         }
+    }
+    // a jump to an undefined label that comes out of a macro: one use, and two uses of the same macro of
+    // which only one names an undefined label (uses of one macro have the same positions inside their expansion)
+    for (k, uses) in [vec!["nowhere_m"], vec!["nowhere_m", "start"], vec!["start", "nowhere_m"], vec!["start", "nowhere_m", "start"]].iter().enumerate() {
+        let mut v = b.clone();
+        let at = if k % 2 == 0 { p.live_pos } else { n };
+        for (j, u) in uses.iter().enumerate() {
+            v.insert((at + j).min(v.len()), format!("jmx({})", u));
+        }
+        v.insert(first_code, format!("macro jmx(t) -> {} t <-", ["jmp", "jz", "loop", "jnbe"][k]));
+        push("undefined-jump-target-via-macro", format!("macro jmx used with {:?}", uses), v, at + 1);
     }
     // M11: start
     if let Some((si, _)) = code_labels.iter().find(|(_, n)| n == "start") {
@@ -542,7 +554,8 @@ pub fn eval_cli(c: &(Raw14, u16)) -> CaseOutcome {
     CaseOutcome::Pass { nontrivial: nt, classes: vec![format!("c14/cli/{}", m.class)], digest: fnv_str(&m.text) }
 }
 
-pub const CLASSES: [&str; 18] = [
+pub const CLASSES: [&str; 19] = [
+    "undefined-jump-target-via-macro",
     "undefined-jump-target",
     "duplicate-label",
     "duplicate-procedure",
@@ -587,7 +600,7 @@ pub fn run(ctx: &Ctx) {
         let m = &ms[crate::pt::idx(*sel, ms.len())];
         json!({"cli_mutant": m.text, "class": m.class, "mutation": m.what})
     });
-    for c in &CLASSES[..17] {
+    for c in &CLASSES[..18] {
         ctx.require_class(&format!("c14/cli/{}", c), 3);
     }
 }
